@@ -27,10 +27,10 @@ RULE = (
     "(two MOL resolutions agree 10x better than the error judged) and the coarsest-rung recovery "
     "error exceeds 1e-4 (so that shrinking can be observed); distinct = descriptor hash."
 )
-MIN_NONTRIVIAL = {"quick": 5, "thorough": 45}
+MIN_NONTRIVIAL = {"quick": 5, "thorough": 150}
 SHARDS = {"quick": 6, "thorough": 16}
 WATCHDOG_S = {"quick": 900, "thorough": 7200}
-GENERATOR = {"nx": "25, 50, 100, 200 (+400 thorough)", "r": [4, 8, 16], "t_end": "[3, 12]", "p_f/p_i": "0.05..0.999"}
+GENERATOR = {"nx": "25, 50, 100, 200 (+400 thorough)", "r": [4, 8, 16], "t_end": "[3, 12]", "p_f/p_i": "0.05..0.999", "parabolic ladders": "nx 10, 20, 40 (80) with uniform dt = theta dx^2, theta in [0.08, 0.24], t_end in [0.3, 1]"}
 ASSUMPTIONS = [
     "first-order constants calibrated on the repaired tree with >= 1.5x head-room: K = K0 + 2.0 "
     "(sqrt(t_end)/r) (1 + 0.45 log2(nx/25)); K0 = 2.0 (recovery, Fourier), 3.0 (field, Fourier), "
@@ -54,7 +54,8 @@ def generate(ck):
         {"cls": "single", "table": {"kind": "shipped", "name": "pvt_gas"}, "p_i": 8000.0, "p_f": 1000.0, "r": 16, "t_end": 3.0},
         {"cls": "single", "table": {"kind": "shipped", "name": "haynesville", "rows": "descending"}, "p_i": 8000.0, "p_f": 2000.0, "r": 8, "t_end": 5.0},
     ]
-    n = 2 if ck.tier == "quick" else 60
+    descs.append({"cls": "single", "table": {"kind": "synthetic", "family": "falling", "prm": [0.5, 0.9, 0.5], "n": 200, "p_lo": 50.0, "p_hi": 9000.0, "grid": "uniform", "seed": 0}, "p_i": 8500.0, "p_f": 1500.0, "r": 8, "t_end": 0.6, "theta": 0.2})
+    n = 2 if ck.tier == "quick" else 200
     for i in range(n):
         r = int(rng.choice([4, 8, 16]))
         t_end = float(rng.uniform(3, 12))
@@ -73,6 +74,9 @@ def generate(ck):
         p_i, p_f = sim.pick_pressures(tab, float(rng.random()), ratio)
         if p_f >= p_i:
             p_f = 0.5 * (p_i + tables.pressure_range(tab)[0])
+        if i % 11 == 5:
+            descs.append({"cls": "single", "table": t, "p_i": p_i, "p_f": p_f, "r": r, "t_end": float(rng.uniform(0.3, 1.0)), "theta": float(rng.uniform(0.08, 0.24))})
+            continue
         if i % 3 == 2:
             t = dict(t, rows=str(rng.choice(["descending", "shuffled"])), rows_seed=int(rng.integers(0, 10**6)))
         descs.append({"cls": "single", "table": t, "p_i": p_i, "p_f": p_f, "r": r, "t_end": t_end})
@@ -88,6 +92,9 @@ def run_case(ck, desc):
 
     rungs = [25, 50, 100, 200] + ([400] if ck.tier == "thorough" else [])
     r, t_end = desc["r"], desc["t_end"]
+    theta = desc.get("theta")  # parabolic refinement: uniform dt = theta dx^2 (nt grows like nx^2)
+    if theta:
+        rungs = [10, 20, 40] + ([80] if ck.tier == "thorough" else [])
     cls = desc["cls"]
     if cls == "ideal":
         p_i = 5000.0
@@ -125,6 +132,9 @@ def run_case(ck, desc):
     for nx in rungs:
         nt = r * nx
         t = np.linspace(0, math.sqrt(t_end), nt) ** 2
+        if theta:
+            nt = int(round(t_end * nx * nx / theta)) + 1
+            t = np.linspace(0.0, t_end, nt)
         res = IdealReservoir(nx, p_f, p_i, None) if cls == "ideal" else SinglePhaseReservoir(nx, p_f, p_i, fluid)
         sim.SIM_EVENTS.clear()
         sim.simulate(res, t, None)
@@ -163,6 +173,8 @@ def run_case(ck, desc):
         # claimed there; convergence is judged by its RATE (every doubling of nx must shrink the
         # error by at least a quarter, first order being a half) plus a loose absolute bound chi / nx
         K0r = K0f = 1.0 * chi
+    if theta:
+        r = 1e9  # the time-quadrature term of K vanishes: dt = theta dx^2 is far finer than r nx steps
     ok_ref = True
     if ref == "mol":
         ck.note_max("mol_self_consistency_over_R", selfc)
